@@ -54,6 +54,12 @@ def gen_spellings(ctx, comments):
     return cf
 
 
+def gen_pairs(ctx):
+    cf, r, cnt = _run(ctx, "Gen_pairs", "pairs", {"KindsUsed": "{%s}" % ", ".join(ALL_KINDS)})
+    ctx.note("grammar: %d queries placing the shortest and the longest statement of every kind first / second / alone" % cnt)
+    return cf
+
+
 def gen_queries(ctx, n):
     cf, r, cnt = _run(ctx, "Gen_query", "query", {"N": n})
     ctx.note("grammar: %d queries of up to %d statements x separators" % (cnt, n))
